@@ -28,6 +28,8 @@ def check(case, ctx):
     from xfab import structure
     M = SF.build(case)
     g = M.g
+    if GR.touch_sibling(g.no, g.choice):
+        ctx.event("sibling-setting-used-first")
     tag = g.crystal_system
     kinds = sorted({m["kind"] for m in M.model})
     obl = any(abs(x - 90.0) > 1e-9 and abs(x - 120.0) > 1e-9 for x in M.cell[3:6])
